@@ -18,6 +18,7 @@ func outHeader(p *gen.Project) map[string]interface{} {
 	h := schedHeader(p)
 	h["outfiles"] = true
 	h["end"] = p.Cfg.End
+	h["begin"] = p.Rotation[0].Harv
 	h["annual"] = []int{p.Cfg.AnnualM, p.Cfg.AnnualD}
 	h["rotCrops"] = crops[1:]
 	return h
@@ -39,7 +40,32 @@ func outputProjects(c *core.Ctx, n int) []*gen.Project {
 		r := rngFor(c, 500+int64(i))
 		o := gen.Opts{Years: 1 + r.Intn(3), MinLayers: 4, MaxLayers: 12, DateFormats: []int{i % 4}, BeginAnyDay: i%2 == 0, Crops: []string{"SM", "WW", "SOY", "WG", "OA", "ZR"},
 			NoCrops: i%5 == 4, ETMethods: []int{2, 3}, StartYearMin: 1990, StartYearMax: 2030}
+		// arms aimed at the calendar: the run ends in a leap year (end dates in February / March / December of it), or
+		// starts in February / March of a leap year
+		leapEnd, leapBegin := i%4 == 1, i%6 == 2
+		if leapEnd {
+			L := 1992 + 4*r.Intn(10)
+			o.StartYearMin, o.StartYearMax = L-o.Years, L-o.Years
+			o.BeginAnyDay = false
+		}
+		if leapBegin {
+			L := 1992 + 4*r.Intn(10)
+			o.StartYearMin, o.StartYearMax = L, L
+			o.BeginMonth = 3 - (i/6)%2
+		}
 		p := gen.Random(r, fmt.Sprintf("o%d_%d", c.Seed, i), o)
+		if leapEnd {
+			L := p.Cfg.StartYear + o.Years
+			if y, _, _ := gen.YMD(p.Cfg.End); y == L {
+				cand := []int{gen.DayNum(L, 9, 30) - r.Intn(60), gen.DayNum(L, 3, 1) + r.Intn(31), gen.DayNum(L, 2, 27) + r.Intn(3), gen.DayNum(L, 12, 28) + r.Intn(4)}[(i/4)%4]
+				if cand >= p.Rotation[0].Harv+120 {
+					p.Cfg.End = cand
+					for len(p.Rotation) > 1 && p.Rotation[len(p.Rotation)-1].Harv > p.Cfg.End-3 {
+						p.Rotation = p.Rotation[:len(p.Rotation)-1]
+					}
+				}
+			}
+		}
 		p.Cfg.OutInt = []int{1, 1, 2, 3, 7, 30, 1}[r.Intn(7)]
 		p.Cfg.ResultFormat = i % 2
 		p.Cfg.ResultExt = ""
@@ -47,6 +73,14 @@ func outputProjects(c *core.Ctx, n int) []*gen.Project {
 			p.Cfg.ResultExt = []string{"csv", "txt", "RES"}[r.Intn(3)]
 		}
 		p.Cfg.AnnualM, p.Cfg.AnnualD = 1+r.Intn(12), 1+r.Intn(28)
+		if r.Intn(3) == 0 {
+			// the ends of the year and of February
+			md := [][2]int{{12, 31}, {12, 30}, {1, 1}, {2, 28}, {3, 1}, {12, 31}}[r.Intn(6)]
+			p.Cfg.AnnualM, p.Cfg.AnnualD = md[0], md[1]
+		}
+		if leapEnd && (i/4)%4 == 0 {
+			p.Cfg.AnnualM, p.Cfg.AnnualD = 12, 31 // last day of a leap end year, the run ends before it
+		}
 		// end anywhere, incl. the last days of a year
 		if i%3 == 0 {
 			y, _, _ := gen.YMD(p.Cfg.End)
@@ -109,6 +143,19 @@ func checkC05(c *core.Ctx) {
 	}
 	c.CoverAdd("events_validated", records)
 	for _, tr := range res {
+		// a listed finding switches its invariant off for this run and the run is validated again: the rest of the trace
+		// is still judged by everything else
+		var dropped []string
+		for tr != nil && !tr.OK && tr.Violated != "" {
+			kf := knownOutput(c, tr)
+			if kf == nil || len(dropped) >= 3 {
+				break
+			}
+			c.ReportKnown(kf, fmt.Sprintf("(%s in run %s, %v)", tr.Violated, tr.Case.P.Name, tr.Case.P.Arms))
+			c.CoverAdd("known_finding_cases", 1)
+			dropped = append(dropped, tr.Violated)
+			tr = revalidateWithout(c, tr.Case, "Trace_Run", "Trace_Run_C05.cfg", dropped)
+		}
 		if tr == nil {
 			continue
 		}
@@ -117,11 +164,6 @@ func checkC05(c *core.Ctx) {
 			continue
 		}
 		if tr.Violated == "" {
-			continue
-		}
-		if kf := knownOutput(c, tr); kf != nil {
-			c.ReportKnown(kf, fmt.Sprintf("(%s in run %s, %v)", tr.Violated, tr.Case.P.Name, tr.Case.P.Arms))
-			c.CoverAdd("known_finding_cases", 1)
 			continue
 		}
 		rd := saveProjectReplay(c, tr, "Trace_Run_C05.cfg", nil)
@@ -134,27 +176,36 @@ func checkC05(c *core.Ctx) {
 	c.Cover("rule", "one case per generated project (start/end, annual date, interval, style, date format, column lists drawn from VERIF_SEED)")
 }
 
-// knownOutput matches the two listed findings about the annual output day.
+// knownOutput matches the two listed findings about the annual output day. The match is tight: a violation is the
+// listed finding only if the record sits exactly where the listed mechanism puts it (the day of year the annual date
+// has in the END year, capped at 365; the run extended to the annual date of the end year).
 func knownOutput(c *core.Ctx, tr *traceResult) *core.Finding {
 	p := tr.Case.P
 	ey, _, _ := gen.YMD(p.Cfg.End)
 	arms := strings.Join(p.Arms, " ")
+	outday := gen.DayNum(ey, p.Cfg.AnnualM, p.Cfg.AnnualD) - gen.DayNum(ey, 1, 1) + 1
+	if outday > 365 {
+		outday = 365
+	}
 	switch tr.Violated {
 	case "C05_DailyEnd":
 		// the run is extended to the annual output date of the end year when that date lies after the end date
-		if strings.Contains(arms, "annualAfterEnd") {
+		last, ok := tr.Event["last"].(float64)
+		ext := gen.DayNum(ey, p.Cfg.AnnualM, p.Cfg.AnnualD)
+		k := p.Cfg.OutInt
+		if strings.Contains(arms, "annualAfterEnd") && ok && k > 0 && int(last) == ext-(ext%k) {
 			return c.KnownFinding("H9-run-extended-to-annual-date")
 		}
 	case "C05_YearlyDates":
 		// the yearly record is written on the day-of-year the annual date has in the END year: in years of the other
-		// leapness (dates after February) it is one day off; 31.12. is capped to day 365
+		// leapness (dates after February) it is one day off; 31.12. of a leap end year is capped to day 365
 		n, _ := tr.Event["n"].(float64)
-		y, m, _ := gen.YMD(int(n))
-		afterFeb := p.Cfg.AnnualM > 2
-		if afterFeb && gen.IsLeap(y) != gen.IsLeap(ey) {
+		y, _, _ := gen.YMD(int(n))
+		asCoded := gen.DayNum(y, 1, 1) + outday - 1
+		demanded := gen.DayNum(y, p.Cfg.AnnualM, p.Cfg.AnnualD)
+		if int(n) == asCoded && asCoded != demanded && p.Cfg.AnnualM > 2 {
 			return c.KnownFinding("H9-annual-day-of-end-year")
 		}
-		_ = m
 	}
 	return nil
 }
